@@ -16,14 +16,18 @@ func init() {
 	register(&Property{
 		ID:        "C42",
 		Title:     "BPF service load balancing state is never inconsistent mid-update",
-		Technique: "static analysis: who-may-write, SSA dominance ordering with success guards, counter-web provenance (phi/+1 slices) and forward avoid-reachability (go/ssa over felix/bpf/proxy)",
+		Technique: "static analysis: who-may-write, SSA dominance ordering with success guards, counter-web provenance (phi/+1 slices), forward avoid-reachability and IPv4/IPv6 twin-arm comparison by produced types (go/ssa over felix/bpf/proxy + felix/bpf/nat)",
 		DesignRef: "DESIGN.md §3 C42",
 		Explanation: "Decides on Syncer: (writers) the only kernel writes to the NAT frontend and backend maps are four CachingMap calls in Syncer.apply (frontend deletions, backend updates, frontend updates, backend deletions; no ApplyAllChanges, no write through the Dataplane() view); " +
 			"(order) backend updates precede frontend updates, frontend deletions and frontend updates precede backend deletions, and the later call is reachable only if the earlier one returned nil; " +
 			"(fresh) the desired frontend and backend images are emptied before anything is written into them, so stale entries become deletions; " +
 			"(count) in updateService every backend write uses the running counter as its index, is followed on its success path by exactly `counter+1` before the next write or the frontend write, the counter starts at 0 and changes nowhere else, the frontend count/local arguments are those counters, backend writes are guarded by IsReady() of the written endpoint, the local counter is incremented exactly with backend writes guarded by IsLocal(), and no local write can follow a non-local one; " +
 			"(derived) every other frontend write takes (id, count, local) from one svcInfo value whose fields were filled from updateService's results for that id; " +
-			"(policy) the internal/external-local NAT flags are or-ed in exactly under the service's Internal/ExternalPolicyLocal().",
+			"(policy) the internal/external-local NAT flags are or-ed in exactly under the service's Internal/ExternalPolicyLocal(); " +
+			"(twin) for every Syncer field assigned under both `family == 4` and `family == 6` (the typed frontend/backend/maglev map wrappers whose key/value decoders read the kernel maps back at start-up, and the key/value constructors), " +
+			"the function values wired in by the two arms correspond position by position: the concrete nat types the IPv6 arm's function produces (result type, or for interface results the dynamic types its body returns) " +
+			"are the IPv6 twin types of those the IPv4 arm's function produces (a type without a twin, or whose twin is an alias, maps to itself) and the IPv4 arm produces no IPv6 twin type - " +
+			"otherwise entries loaded from the dataplane are decoded with the other family's layout and stale frontends/backends are never matched, hence never removed.",
 		NotDecided: "What CachingMap does inside one Apply* call (batching, error slices), the Maglev LUT map (applied with ApplyAllChanges between the two steps), that eps handed to updateService are the service's endpoints, id allocation/reuse, and writers of the same pinned maps outside felix/bpf/proxy.",
 		Assumptions: []string{
 			"go/types + go/ssa (x/tools v0.50.0) model of the current source, CGO_ENABLED=0 build",
@@ -53,6 +57,15 @@ func init() {
 				Old: "s.writeSvc(sinfo, svc.id, count, local, flags)", New: "s.writeSvc(sinfo, svc.id, local, count, flags)", Expect: "C42.derived/Syncer.applyDerived->Syncer.writeSvc"},
 			{Name: "internal-local flag set regardless of policy", File: "felix/bpf/proxy/syncer.go",
 				Old: "\tflags := uint32(0)\n\tif sinfo.InternalPolicyLocal() {\n\t\tflags |= nat.NATFlgInternalLocal\n\t}\n\n\tif sinfo.UseMaglev() && maglevEPs != nil {", New: "\tflags := uint32(0)\n\tif sinfo.ExternalPolicyLocal() {\n\t\tflags |= nat.NATFlgInternalLocal\n\t}\n\n\tif sinfo.UseMaglev() && maglevEPs != nil {", Expect: "C42.policy/Syncer.updateService"},
+			{Name: "IPv6 frontend map read back with the IPv4 key decoder", File: "felix/bpf/proxy/syncer.go",
+				Old: "frontendMap, nat.FrontendKeyV6FromBytes, nat.FrontendValueFromBytes,", New: "frontendMap, nat.FrontendKeyFromBytes, nat.FrontendValueFromBytes,",
+				Expect: "C42.twin/NewSyncer/bpfSvcs/FrontendKeyFromBytes"},
+			{Name: "IPv6 backend map read back with the IPv4 value decoder", File: "felix/bpf/proxy/syncer.go",
+				Old: "backendMap, nat.BackendKeyFromBytes, nat.BackendValueV6FromBytes,", New: "backendMap, nat.BackendKeyFromBytes, nat.BackendValueFromBytes,",
+				Expect: "C42.twin/NewSyncer/bpfEps/BackendValueFromBytes"},
+			{Name: "IPv4 syncer builds IPv6 source-range frontend keys", File: "felix/bpf/proxy/syncer.go",
+				Old: "\t\ts.newFrontendKeySrc = nat.NewNATKeySrcIntf\n", New: "\t\ts.newFrontendKeySrc = nat.NewNATKeyV6SrcIntf\n",
+				Expect: "C42.twin/NewSyncer/newFrontendKeySrc"},
 		},
 	})
 	dplinuxFixtureFilter(registry["C42"])
@@ -104,7 +117,7 @@ func c42View(v ssa.Value) (view, kind string) {
 }
 
 func runC42(c *Ctx) {
-	p := c.Load(c42Pkg)
+	p := c.Load(c42Pkg, "felix/bpf/nat") // nat bodies: concrete types produced by the key/value decoders (C42.twin)
 	x := &c42{c: c, p: p}
 	x.apply = p.Func(c42Pkg, "Syncer.apply")
 	x.updSvc = p.Func(c42Pkg, "Syncer.updateService")
@@ -116,7 +129,11 @@ func runC42(c *Ctx) {
 			c.Lost("cachingmap.CachingMap.%s", m)
 		}
 	}
-	x.funcs = p.AllFuncs()
+	for _, f := range p.AllFuncs() {
+		if f.Pkg != nil && f.Pkg == p.SSAPkg(c42Pkg) {
+			x.funcs = append(x.funcs, f)
+		}
+	}
 
 	c.Rule("C42.writers", "E-OWN", "kernel-writing calls on the NAT frontend/backend CachingMaps in felix/bpf/proxy are exactly frontend{ApplyDeletionsOnly,ApplyUpdatesOnly} and backend{ApplyUpdatesOnly,ApplyDeletionsOnly}, all in Syncer.apply", 4)
 	c.Rule("C42.order", "E-ORDER/E-GUARD", "in Syncer.apply: backend updates < frontend updates; frontend deletions < backend deletions; frontend updates < backend deletions; the later call only after the earlier returned nil", 6)
@@ -131,6 +148,9 @@ func runC42(c *Ctx) {
 	cnt := x.count()
 	x.derived(cnt)
 	x.policy()
+
+	c.Rule("C42.twin", "E-TWIN", "for every field assigned under both `family == 4` and `family == 6`, the function values wired in by the IPv6 arm produce the IPv6 twin types of what the IPv4 arm's functions produce, position by position", 12)
+	c42Twin(x)
 }
 
 type c42Site struct {
